@@ -35,13 +35,14 @@ import (
 )
 
 type concIn struct {
-	Seed      int64 `json:"seed"`
-	Idx       int   `json:"idx"`
-	Rounds    int   `json:"rounds"`
-	K         int   `json:"k"`
-	ES        bool  `json:"es"`
-	Net       bool  `json:"net"`
-	AvgEvSize int   `json:"avg_event_size"`
+	Seed      int64  `json:"seed"`
+	Idx       int    `json:"idx"`
+	Rounds    int    `json:"rounds"`
+	K         int    `json:"k"`
+	ES        bool   `json:"es"`
+	Net       bool   `json:"net"`
+	AvgEvSize int    `json:"avg_event_size"`
+	Lim       limits `json:"limits"`
 }
 
 type concOut struct {
@@ -209,8 +210,8 @@ func concLine(seed int64, round, req, idx, n int) []byte {
 	return out
 }
 
-func genConcCase(rng *rand.Rand, seed int64, round, req int, allowEmpty, es, net bool) *Case {
-	c := &Case{ErrAfter: -1, ES: es, Net: net, Kind: "concurrent"}
+func genConcCase(rng *rand.Rand, seed int64, round, req int, allowEmpty, es, net bool, lim limits) *Case {
+	c := &Case{ErrAfter: -1, ES: es, Net: net, Kind: "concurrent", Lim: lim}
 	nl := 1 + rng.Intn(8)
 	li := 0 // index of the next line of the body (empty lines count)
 	for i := 0; i < nl; i++ {
@@ -265,7 +266,7 @@ func childConc(raw json.RawMessage, cio *core.ChildIO) (any, error) {
 		}
 	}
 	rec := &concRec{}
-	plugin := startPlugin(rec, in.ES, in.AvgEvSize)
+	plugin := startPlugin(rec, in.ES, in.AvgEvSize, in.Lim)
 	defer plugin.Stop()
 	path := "/x"
 	if in.ES {
@@ -310,7 +311,7 @@ func childConc(raw json.RawMessage, cio *core.ChildIO) (any, error) {
 		reqs := make([]*cReq, k)
 		wantEmpty := 0
 		for i := range reqs {
-			c := genConcCase(rng, in.Seed, round, i, allowEmpty, in.ES, in.Net)
+			c := genConcCase(rng, in.Seed, round, i, allowEmpty, in.ES, in.Net, in.Lim)
 			rq := &cReq{id: i, c: c, lines: refLines(c.Body)}
 			for _, l := range rq.lines {
 				if len(l) == 0 {
@@ -488,6 +489,9 @@ func childConc(raw json.RawMessage, cio *core.ChildIO) (any, error) {
 				out.Counters["aux:request_used_several_source_ids"]++
 			}
 			out.Counters["requests_judged:"+c.enc()]++
+			if in.Lim.MaxEventSize > 0 {
+				out.Counters["requests_with_max_event_size_set"]++
+			}
 			fps[fmt.Sprintf("C:req:%s:%s:%s", c.enc(), c.Kind, bodyClass(c))] = struct{}{}
 		}
 		if len(orphans) > 0 {
@@ -523,7 +527,7 @@ func childConc(raw json.RawMessage, cio *core.ChildIO) (any, error) {
 		for x := sw; x > 0; x >>= 1 {
 			swb++
 		}
-		fps[fmt.Sprintf("C:round:k=%d,es=%v,net=%v,gz=%d,long=%d,emptylines=%v,switches~2^%d", k, in.ES, in.Net, gz, min(long, 4), allowEmpty, swb)] = struct{}{}
+		fps[fmt.Sprintf("C:round:k=%d,max_event_size=%d,es=%v,net=%v,gz=%d,long=%d,emptylines=%v,switches~2^%d", k, in.Lim.MaxEventSize, in.ES, in.Net, gz, min(long, 4), allowEmpty, swb)] = struct{}{}
 		if len(out.Samples) < 1 && round == 1 {
 			out.Samples = append(out.Samples, map[string]any{"concurrent_round": round, "in_flight": k, "request0": reqs[0].c.witness(), "request0_lines": len(reqs[0].lines)})
 		}
